@@ -61,9 +61,10 @@ ElemsMore ==
     TStruct(FALSE, <<S, TArr(2, Q)>>) }                     \* struct > identified > ..
 Elems == IF Tier = "quick" THEN ElemsQuick ELSE ElemsQuick \cup ElemsMore
 
+\* closed under the simplification steps of the harness (vector -> pointer, address space 1 -> 0)
 Bases(e) ==
-  {TPtr(e, 0), TPtr(e, 1), TVec(FALSE, 2, TPtr(e, 0)), TVec(TRUE, 2, TPtr(e, 1))}
-  \cup (IF Tier = "quick" THEN {} ELSE {TVec(TRUE, 2, TPtr(e, 0)), TVec(FALSE, 2, TPtr(e, 1))})
+  {TPtr(e, 0), TPtr(e, 1), TVec(FALSE, 2, TPtr(e, 0)), TVec(TRUE, 2, TPtr(e, 0)), TVec(TRUE, 2, TPtr(e, 1))}
+  \cup (IF Tier = "quick" THEN {} ELSE {TVec(FALSE, 2, TPtr(e, 1))})
 
 FormsAll ==
   { Idx("int", w, v, 0, FALSE) : w \in {32, 64}, v \in {0, 1} }
@@ -79,16 +80,20 @@ FormsAll ==
   \cup { Idx("ssa", 64, -1, 0, FALSE), Idx("ssa", 32, -1, 0, FALSE), Idx("ssa", 64, -1, 2, FALSE), Idx("ssa", 64, -1, 2, TRUE) }
   \cup { InRange(Idx("int", 32, 1, 0, FALSE)), InRange(Idx("int", 64, 0, 0, FALSE)) }
 
-\* the plainest form of every category; closed under "replace an index by i64 0 / i32 0"
+\* The forms of the lists of length 3: the plainest form of every category.  The set is the
+\* same in both tiers and closed under the simplification steps of the harness (replace an
+\* index by i64 0 / i32 0 / i32 1, a scalable vector by the fixed one, a vector operand by the
+\* zeroinitializer of its type), so that the minimal failing shape of a case does not depend
+\* on the tier.
 Forms3 ==
   { Idx("int", 64, 0, 0, FALSE), Idx("int", 32, 0, 0, FALSE), Idx("int", 32, 1, 0, FALSE),
-    Idx("zeroinit", 64, 0, 2, FALSE), Idx("splat", 32, 1, 2, FALSE), Idx("undef", 64, -1, 2, FALSE),
+    Idx("zeroinit", 64, 0, 2, FALSE), Idx("zeroinit", 32, 0, 2, FALSE), Idx("zeroinit", 64, 0, 2, TRUE),
+    Idx("splat", 32, 1, 2, FALSE), Idx("undef", 64, -1, 2, FALSE),
     Idx("ssa", 64, -1, 0, FALSE), Idx("ssa", 64, -1, 2, FALSE), Idx("ssa", 64, -1, 2, TRUE) }
-  \cup (IF Tier = "quick" THEN {}
-        ELSE { Idx("zeroinit", 64, 0, 2, TRUE), Idx("cexpr", 64, -1, 0, FALSE), Idx("nonsplat", 64, -1, 2, FALSE),
-               InRange(Idx("int", 32, 1, 0, FALSE)) })
 
-Realisable(l) == ~( (\E i \in 1..Len(l) : l[i].f = "ssa") /\ (\E i \in 1..Len(l) : l[i].ir) )
+\* LLVM accepts inrange on at most one index of an expression (llvm-as: a second one is a syntax error)
+Realisable(l) == /\ ~( (\E i \in 1..Len(l) : l[i].f = "ssa") /\ (\E i \in 1..Len(l) : l[i].ir) )
+                 /\ Cardinality({i \in 1..Len(l) : l[i].ir}) <= 1
 Lists(e, b) ==
   {l \in GepLists(UG, FormsAll, e, BaseShape(b), TRUE, 2)
         \cup {x \in GepLists(UG, Forms3, e, BaseShape(b), TRUE, 3) : Len(x) = 3}
